@@ -331,7 +331,7 @@ theorem fifo_inv (cfg : Cfg) (hcfg : cfg.noStale) (hlg : cfg.lentGuard = true) (
   have s0 := Hts.Model.CachedReaderFifo.newReader_S hcfg h0
   have h := Hts.Model.CachedReaderFifo.run_sim hcfg hlg hf ops ok s0
   rcases h.cases with e1 | ⟨a, b, e1, _, r1⟩ | ⟨e, e1, _⟩
-  · rw [hr] at e1; cases e1
+  · exact e1.elim
   · rw [hr] at e1; cases e1; exact r1.2.w.invC
   · rw [hr] at e1; cases e1
 
@@ -370,7 +370,7 @@ theorem fifo_repaired_transparent (cfg : Cfg) (hcfg : cfg.noStale) (hlg : cfg.le
       have s0 := Hts.Model.CachedReaderFifo.newReader_S hcfg h0
       have h := Hts.Model.CachedReaderFifo.run_sim hcfg hlg hf ops ok s0
       rcases h.cases with e1 | ⟨a, b, e1, e2, r1⟩ | ⟨e', e1, _⟩
-      · rw [e1] at hr; cases hr
+      · exact e1.elim
       · rw [e1] at hr
         rw [e2]
         obtain ⟨C1, o1⟩ := a
@@ -383,15 +383,14 @@ theorem fifo_repaired_transparent (cfg : Cfg) (hcfg : cfg.noStale) (hlg : cfg.le
       exact hr
 
 /-- … and a FIFO-cached run stops abnormally only when the uncached run of the same history stops in the same way
-(`badHint` cannot occur with FIFO: its `Put` ignores the recorded victim; it is listed because the model's `Fault`
-type has it) -/
+(no `badHint` alternative: FIFO's `Put` ignores the recorded victim and never fails) -/
 theorem fifo_repaired_faults_only_as_uncached (cfg : Cfg) (hcfg : cfg.noStale) (hlg : cfg.lentGuard = true)
     (f : File) (hf : FileOK f) (ops : List (Op LCache)) (ok : ∀ op ∈ ops, OpOK fifoOps LCache.WF op) (e : Fault)
     (hr : outputs cfg fifoOps f ops = .error e) :
-    e = .badHint ∨ outputs cfg fifoOps f (ops.map Op.uncached) = .error e := by
+    outputs cfg fifoOps f (ops.map Op.uncached) = .error e := by
   unfold outputs at hr ⊢
   cases h0 : newReader fifoOps cfg f with
-  | error e' => rw [h0] at hr; simp only at hr ⊢; exact Or.inr hr
+  | error e' => rw [h0] at hr; simp only at hr ⊢; exact hr
   | ok v =>
     obtain ⟨r0, e0⟩ := v
     rw [h0] at hr
@@ -402,12 +401,12 @@ theorem fifo_repaired_faults_only_as_uncached (cfg : Cfg) (hcfg : cfg.noStale) (
       have s0 := Hts.Model.CachedReaderFifo.newReader_S hcfg h0
       have h := Hts.Model.CachedReaderFifo.run_sim hcfg hlg hf ops ok s0
       rcases h.cases with e1 | ⟨a, b, e1, e2, r1⟩ | ⟨e', e1, e2⟩
-      · rw [e1] at hr; simp only [Except.error.injEq] at hr; exact Or.inl hr.symm
+      · exact e1.elim
       · rw [e1] at hr; cases hr
       · rw [e1] at hr
         rw [e2]
         simp only [Except.error.injEq] at hr ⊢
-        exact Or.inr hr
+        exact hr
     · simp only [ne_eq, he, not_false_eq_true, if_true] at hr
       cases hr
 
@@ -609,16 +608,14 @@ theorem fifo_refines_flat (cfg : Cfg) (hcfg : cfg.failReset = true) (hlg : cfg.l
   rw [hu, flatOuts_uncached] at this
   exact (Except.ok.inj this)
 
-/-- … and it does not panic or hang on valid histories (only the model artefact `badHint` is not excluded here; FIFO's
-`Put` never produces it) -/
+/-- … and it never panics or hangs on valid histories: every FIFO-cached run returns normally -/
 theorem fifo_never_faults (cfg : Cfg) (hcfg : cfg.failReset = true) (hlg : cfg.lentGuard = true)
     (F : Hts.Model.Bgzf.File) (hwf : Hts.Model.Bgzf.WF F)
     (r0 : Hts.Model.Bgzf.Reader) (h0 : Hts.Model.Bgzf.Reader.new F = .ok r0) (ops : List (Op LCache))
     (ok : ∀ op ∈ ops, OpOK fifoOps LCache.WF op) (hseek : ∀ f b, Op.seek f b ∈ ops → 0 ≤ f)
     (hv : Hts.Spec.Flat.ValidOps (Hts.Model.Bgzf.layoutOf F) (ops.filterMap flatOp)) (e : Fault)
-    (hr : outputs cfg fifoOps (ofB F) ops = .error e) : e = .badHint := by
-  rcases fifo_repaired_faults_only_as_uncached cfg (Or.inr hcfg) hlg (ofB F) (fileOK_ofB hwf 0) ops ok e hr with h | h
-  · exact h
+    (hr : outputs cfg fifoOps (ofB F) ops = .error e) : False := by
+  have h := fifo_repaired_faults_only_as_uncached cfg (Or.inr hcfg) hlg (ofB F) (fileOK_ofB hwf 0) ops ok e hr
   · have hp : ∀ op ∈ ops.map Op.uncached, Plain op := by
       intro op hop
       obtain ⟨op0, h1, h2⟩ := List.mem_map.1 hop
